@@ -302,6 +302,10 @@ def label_cases():
         src = ("flag = %s\nn = 0\nwhile n < 2 {\n\tn = n + 1\n\tif flag {\n" % flag + klass("Shape", "circle", 2) + "\t\ts = Shape(n)\n\t\tprint s.describe()\n\t} else {\n" +
                klass("Shape2", "square", 2) + "\t\ts = Shape2(n)\n\t\tprint s.describe()\n\t}\n}\n")
         add("class-in-if-and-else-in-loop:" + flag, src, "circle 1\ncircle 2\n" if flag == "true" else "square 1\nsquare 2\n")
+    # two methods / two fields / a method and a variable whose names differ only in letter case
+    src = ("class Mc {\n\tid: int\n\tID: int\n\tconstructor(self) {\n\t\tself.id = 1\n\t\tself.ID = 2\n\t}\n\tfn bits(self) -> int {\n\t\treturn self.id\n\t}\n\tfn BITS(self) -> int {\n\t\treturn self.ID * 10\n\t}\n"
+           "\tfn Bits(self) -> int {\n\t\treturn 300\n\t}\n}\nmc = Mc()\nMC = 7\nprint mc.bits() + mc.BITS() + mc.Bits() + MC\n")
+    add("members-differ-in-case", src, "328\n")
     # different classes with same-named methods; a module-level function named like the methods; a local named like a class of another scope
     src = (klass("A", "a", 0) + klass("B", "b", 0) + "describe = fn() -> str {\n\treturn \"free\"\n}\nx = A(1)\ny = B(2)\nprint x.describe()\nprint y.describe()\nprint describe()\n"
            "user = fn() -> int {\n\tB = 5\n\treturn B + 1\n}\nprint user()\nz = B(3)\nprint z.describe()\n")
